@@ -1,5 +1,5 @@
 # C14 - template substitution replaces exactly the placeholders and nothing else (Tier A: in-process).
-# Bounded exhaustive: every template made of <= 3 (quick) / <= 4 (thorough) fragments of a 27-fragment alphabet
+# Bounded exhaustive: every template made of <= 3 (quick) / <= 4 (thorough) fragments of a 29-fragment alphabet
 # (de-duplicated on the resulting text) x 100 data sets (A, B each bound to one of 10 values) x formats
 # {meson, cmake, cmake@}, the real do_conf_str executed on every element.  Four oracles:
 #  (1) marker differential (meson format): the output for real values must equal the output obtained with inert
@@ -26,7 +26,9 @@ if hasattr(mlog, '_logger'):
 
 FRAGS = ['@A@', '@B@', '@U@', '@', '@@', '\\@', '\\\\', '\\\\\\', '\\@A\\@', '\\@A@', '@A b@', '${A}', '${U}', '${', '}', '$',
          '#mesondefine A', '#mesondefine U', ' # mesondefine A', '#mesondefine A B',
-         '#cmakedefine A', '#cmakedefine01 A', '#cmakedefine A @B@', 'x', ' ', '\n', '\r\n']
+         '#cmakedefine A', '#cmakedefine01 A', '#cmakedefine A @B@', 'x', ' ', '\n', '\r\n',
+         # non-ASCII "word" characters are not name characters: these are plain text in every format
+         '@\u00e9@', '\\@\u00e9\\@']
 VALUES = ['v', '', '@B@', '\\\\@B@', '${B}', 'x y', 10, 0, True, False]
 DATASETS = [(a, b) for a in VALUES for b in VALUES]
 FORMATS = ['meson', 'cmake', 'cmake@']
@@ -1011,7 +1013,7 @@ def main():
     if ck.args.replay:
         return replay(ck)
     maxlen = ck.q(3, 4)
-    ck.require(len(FRAGS) == 27 and len(set(FRAGS)) == 27, 'alphabet is not 27 distinct fragments')
+    ck.require(len(FRAGS) == 29 and len(set(FRAGS)) == 29, 'alphabet is not 29 distinct fragments')
     ck.require(not any('\r' in f.replace('\r\n', '') for f in FRAGS), 'lone CR in the alphabet')
     ncal = calibrate(ck)
     ck.part('calibration', pinned_expectations_reproduced_by_reference=ncal)
@@ -1079,7 +1081,7 @@ def main():
     ck.sample({'template': TEMPLATES[nt - 7][0], 'fragments': [FRAGS[i] for i in TEMPLATES[nt - 7][1]], 'formats': FORMATS})
     ck.finish(evaluations=tot.get('evaluations', 0) + nfile + nhead + ntb,
               distinct_nontrivial=len(classes) + hclasses,
-              rule='every sequence of <= %d fragments from the 27-fragment alphabet (%d sequences, %d distinct texts) x 100 data sets '
+              rule='every sequence of <= %d fragments from the 29-fragment alphabet (%d sequences, %d distinct texts) x 100 data sets '
                    '(A,B in %r) x formats %s through the real do_conf_str (+ marker-structure runs for the meson format); do_conf_file on all '
                    'texts <= 2 fragments; dump_conf_header on all ordered key tuples <= 2 x values x description and all permutations of '
                    '3..%d keys x {c,nasm,json} x macro guard; tier B: all texts <= 2 fragments x data x formats through configure_file() of a real meson setup. distinct_nontrivial = number of distinct (format, set of reference line '
